@@ -21,6 +21,8 @@
 (*        ins  : tuple BOOLEAN  thread is inside _enter_z3/_exit_z3        *)
 (*        pos  : tuple Nat      operations of the script completed         *)
 (*        fin  : tuple BOOLEAN  thread has terminated                      *)
+(*        bgc  : BOOLEAN   the collector was seen enabled from inside the  *)
+(*                         body of a condom'd call (sticky)                *)
 (*        crash: BOOLEAN   a thread died with an unexpected exception      *)
 (*        dead : BOOLEAN   no thread can move and not all have terminated] *)
 (***************************************************************************)
@@ -47,6 +49,10 @@ Single(cfg) == N(cfg) = 1
 Prot(cfg) == Balanced(cfg) \/ Single(cfg)
 
 Sum(f) == FoldLeft(LAMBDA a, x : a + x, 0, f)
+\* a thread that has terminated has no call in progress any more, whatever the guard still believes: an enter whose
+\* exit never came (e.g. a wrapper that forgets the exit on some path) must not keep the collector disabled
+Fl(s, t) == IF s.fin[t] THEN 0 ELSE s.fl[t]
+InFlight(cfg, s) == Sum([t \in 1..N(cfg) |-> Fl(s, t)])
 Quiescent(cfg, s) == \A t \in 1..N(cfg) : ~s.ins[t]
 AllFin(cfg, s) == \A t \in 1..N(cfg) : s.fin[t]
 
@@ -59,11 +65,11 @@ ExpectFl(cfg, s, t) ==
 (* The property, clause by clause                                          *)
 (***************************************************************************)
 CountNonNeg(cfg, s) == s.act >= 0
-GcOffWhileInFlight(cfg, s) == Prot(cfg) => ((\E t \in 1..N(cfg) : s.fl[t] > 0) => ~s.gc)
+GcOffWhileInFlight(cfg, s) == Prot(cfg) => (~s.bgc /\ ((\E t \in 1..N(cfg) : Fl(s, t) > 0) => ~s.gc))
 NoUnderflow(cfg, s) == Balanced(cfg) => s.ufl = 0
-CountMatches(cfg, s) == (Prot(cfg) /\ Quiescent(cfg, s)) => s.act = Sum(s.fl)
+CountMatches(cfg, s) == (Prot(cfg) /\ Quiescent(cfg, s)) => s.act = InFlight(cfg, s)
 \* "once all calls have returned the enabled state is what it was before the first of them started"
-Restored(cfg, s) == (Prot(cfg) /\ Quiescent(cfg, s) /\ Sum(s.fl) = 0) => s.gc = cfg.gc0
+Restored(cfg, s) == (Prot(cfg) /\ Quiescent(cfg, s) /\ InFlight(cfg, s) = 0) => s.gc = cfg.gc0
 UnderflowCount(cfg, s) == (Single(cfg) /\ AllFin(cfg, s) /\ ~s.crash) => s.ufl = Unmatched(cfg.scripts[1])
 FlOK(cfg, s) == ~s.crash => \A t \in 1..N(cfg) : s.fl[t] = ExpectFl(cfg, s, t)
 
@@ -81,7 +87,7 @@ Clauses(cfg, s) ==
        [] c = "dead" -> s.dead}
 
 AbsInit(cfg, s) ==
-  /\ s.gc = cfg.gc0 /\ s.act = 0 /\ s.ufl = 0 /\ ~s.crash
+  /\ s.gc = cfg.gc0 /\ s.act = 0 /\ s.ufl = 0 /\ ~s.crash /\ ~s.bgc
   /\ Len(s.fl) = N(cfg) /\ Len(s.ins) = N(cfg) /\ Len(s.pos) = N(cfg) /\ Len(s.fin) = N(cfg)
   /\ \A t \in 1..N(cfg) : s.fl[t] = 0 /\ ~s.ins[t] /\ s.pos[t] = 0 /\ ~s.fin[t]
 
@@ -96,5 +102,5 @@ AbsStep(cfg, s, u) ==
        /\ u.pos[t] \in {s.pos[t], s.pos[t] + 1}
        /\ u.pos[t] <= Len(cfg.scripts[t])
        /\ u.ufl >= s.ufl
-       /\ (s.crash => u.crash)
+       /\ (s.crash => u.crash) /\ (s.bgc => u.bgc)
 =============================================================================
